@@ -128,6 +128,37 @@ theorem copy_independent (w : World) (s : Nat) (hsc : Scoped w) (hs : s < w.nS) 
     rw [(c j (by omega) (by intro p hp; simp [hall p hp, hne])).2]
     exact (hff.2 j hj).2
 
+/-! ## copy_like -/
+
+/-- `target.copy_like(source)` over the whole kind × kind × package matrix (single ← single,
+single ← one-phase multi, single ← multi, multi ← single incl. a phase the target lacks,
+multi ← multi with equal / compatible / different phase tuples; same or other package — the
+package only decides whether the call can raise `UndefinedChemical`): whenever the call
+succeeds, for well-formed streams that share no flow data,
+
+* T and P of the target are the source's,
+* every phase of the source has arrived, with its flows (as functions of the chemical), in the
+  target row that the phase lookup gives for it — the row with exactly that label if the target
+  (after a possible extension of its phase tuple) has one, otherwise the label of the other case —
+  and every other row of the target is empty,
+* the target is well formed, and a single-phase target has exactly the phase tuple of the source. -/
+theorem copy_like_equal (w : World) (t s : Nat) (w' : World) (hsc : Scoped w) (ht : t < w.nS) (hs : s < w.nS)
+    (hwt : WFImol w (w.strs t).imol) (hws : WFImol w (w.strs s).imol) (hap : Apart w t s)
+    (h : w.copyLike t s = .ok w') : CopyLikeResult w t s w' :=
+  copyLike_result w t s w' hsc ht hs hwt hws hap h
+
+/-- The exact label is used whenever the target has it. -/
+theorem phase_lookup_exact (ps : List Ph) (p : Ph) (h : p ∈ ps) : phIdx ps p = ps.idxOf? p := by
+  obtain ⟨i, hi⟩ := idxOf?_some_of_mem ps p h
+  rw [phIdx_of_idxOf hi, hi]
+
+/-- `copy_thermal_condition` copies T and P and nothing else. -/
+theorem copy_tc (w : World) (t s : Nat) :
+    ((w.copyTC t s).observe t).T = (w.observe s).T ∧ ((w.copyTC t s).observe t).P = (w.observe s).P ∧
+    ((w.copyTC t s).observe t).phases = (w.observe t).phases ∧
+    ((w.copyTC t s).observe t).flows = (w.observe t).flows := by
+  simp [World.copyTC, World.tcCopyLike, World.observe, World.phasesOf, World.rowIdsOf]
+
 /-! ## Proxies, links, unlink -/
 
 /-- A proxy shares everything: the indexer object (so flows and phase), the thermal condition
@@ -290,5 +321,73 @@ theorem separation_history (l : List (Op × Bool)) (w : World) (σ : Nat → Boo
     Sep (runSided w σ l).1 (runSided w σ l).2 ∧
     ∀ j, j < w.nS → (∀ p ∈ l, p.2 ≠ σ j) → (runSided w σ l).1.observe j = w.observe j :=
   ⟨(sep_run l w σ hsc hsep hone).2.1, fun j hj hall => ((sep_run l w σ hsc hsep hone).2.2 j hj hall).2⟩
+
+
+/-! ## Non-vacuity: the hypotheses above are met by concrete, non-trivial states -/
+
+instance decWF (w : World) (im : Nat) : Decidable (WFImol w im) :=
+  match h : w.imols im with
+  | .chem .. => isTrue (by simp [WFImol, h])
+  | .mat ps a =>
+    decidable_of_iff (normPh ps = ps ∧ (w.arrs a).length = ps.length ∧ (w.arrs a).Nodup) (by simp [WFImol, h])
+
+instance decWFStream (w : World) (i : Nat) : Decidable (WFStream w i) :=
+  match h : w.imols (w.strs i).imol with
+  | .chem .. => isTrue (by simp [WFStream, h])
+  | .mat ps a => decidable_of_iff (normPh ps = ps ∧ (w.arrs a).length = ps.length) (by simp [WFStream, h])
+
+instance decOneSided : ∀ (l : List (Op × Bool)) (w : World) (σ : Nat → Bool), Decidable (OneSided w σ l)
+  | [], _, _ => isTrue trivial
+  | (op, X) :: rest, w, σ =>
+    match h : w.step op with
+    | .ok w' =>
+      have := decOneSided rest w' (sideStep w σ X)
+      decidable_of_iff ((∀ i ∈ op.ids, σ i = X) ∧ OneSided w' (sideStep w σ X) rest) (by simp [OneSided, h])
+    | .skip =>
+      have := decOneSided rest w σ
+      decidable_of_iff ((∀ i ∈ op.ids, σ i = X) ∧ OneSided w σ rest) (by simp [OneSided, h])
+    | .err _ => decidable_of_iff (∀ i ∈ op.ids, σ i = X) (by simp [OneSided, h])
+
+/-- two streams: a single-phase solid one with price and a characterization factor, a multi-phase one over (g, l)
+of another package -/
+def exOps : List Op :=
+  [ .new { multi := false, sid := some 1, pkg := [1, 2, 3], pkgId := 0, phases := [.s], flows := [[(1, 1), (3, 1/2)]],
+           T := 300, P := 101325, price := 1/2, cf := [(1, 2)] },
+    .new { multi := true, sid := none, pkg := [3, 1], pkgId := 1, phases := [.g, .l], flows := [[(1, 2)], [(3, 5)]],
+           T := 350, P := 200000, price := 0, cf := [] } ]
+
+def exW : World := World.init.run exOps
+
+theorem exW_apart (t s : Nat) (h : (t = 0 ∧ s = 1) ∨ (t = 1 ∧ s = 0)) : Apart exW t s := by
+  rcases h with ⟨rfl, rfl⟩ | ⟨rfl, rfl⟩
+  · refine ⟨by decide, by decide, ?_⟩
+    intro ps a qs b h1 h2
+    have : exW.imols (exW.strs 0).imol = .chem 2 3 := by decide
+    rw [this] at h1; cases h1
+  · refine ⟨by decide, by decide, ?_⟩
+    intro ps a qs b h1 h2
+    have : exW.imols (exW.strs 0).imol = .chem 2 3 := by decide
+    rw [this] at h2; cases h2
+
+/-- Non-vacuity of `copy_like_equal`: single ← multi (the target's phase 's' is not among the source's)
+and multi ← single (the source's phase 's' is not among the target's), different packages. -/
+example : ∃ w', exW.copyLike 0 1 = .ok w' ∧ Scoped exW ∧ WFImol exW (exW.strs 0).imol ∧
+    WFImol exW (exW.strs 1).imol ∧ Apart exW 0 1 :=
+  ⟨_, rfl, reachable_scoped exOps, by decide, by decide, exW_apart 0 1 (Or.inl ⟨rfl, rfl⟩)⟩
+
+example : (match exW.copyLike 1 0 with
+    | .ok w' => decide ((w'.observe 1).phases = [.g, .l, .s] ∧ (w'.observe 1).T = 300)
+    | _ => false) = true ∧ WFImol exW (exW.strs 1).imol ∧ Apart exW 1 0 :=
+  ⟨by decide +kernel, by decide, exW_apart 1 0 (Or.inr ⟨rfl, rfl⟩)⟩
+
+/-- Non-vacuity of `copy_independent`: a history that edits the copy, links a proxy of the copy to it, and edits
+and re-phases the originals, is one-sided. -/
+example : OneSided (exW.copy 1).1 (fun i => i == 2)
+    [(.setT 2 400, true), (.setFlow 0 .s 1 7, false), (.proxy 2, true), (.link 3 2 true false true, true),
+     (.copyLike 0 1, false), (.setPhase 2 .l, true), (.unlink 1, false)] := by decide
+
+/-- Non-vacuity of `pickle_roundtrip` -/
+example : WFStream exW 0 ∧ WFStream exW 1 := by decide
+
 
 end ThermoVerif.Props.C13
